@@ -74,11 +74,21 @@ type DefragmentationContext struct {
 	stats             defrag.DefragmentationStats
 }
 
-func (c *DefragmentationContext) init(o *DefragmentationInfo) error {
+// validate reports option values no defragmentation run can be started with. It is checked
+// before any block list is prepared for the run, so that a refused request changes nothing.
+func (o *DefragmentationInfo) validate() error {
 	if o.MaxBytesPerPass < 0 || o.MaxAllocationsPerPass < 0 {
 		return errors.Errorf("defragmentation pass limits cannot be negative: MaxBytesPerPass %d, MaxAllocationsPerPass %d", o.MaxBytesPerPass, o.MaxAllocationsPerPass)
 	}
 
+	if o.Flags&DefragmentationFlagAlgorithmMask == DefragmentationFlagAlgorithmMask {
+		return errors.Errorf("incompatible defragmentation algorithm flags: %d", o.Flags&DefragmentationFlagAlgorithmMask)
+	}
+
+	return nil
+}
+
+func (c *DefragmentationContext) init(o *DefragmentationInfo) error {
 	c.MaxPassBytes = o.MaxBytesPerPass
 	c.MaxPassAllocations = o.MaxAllocationsPerPass
 
